@@ -399,7 +399,7 @@ impl Prop for C12 {
         let mut rng = env.rng("c12-random");
         let nrand = env.tier.pick(600, 6000);
         // options the statement does not mention ride along in three quarters of the random histories: they must not matter
-        const BYSTANDERS: [u16; 4] = [0, O_ANSI, O_SQ | O_ENG, O_NUMPAD | O_PSUGG | O_ANSI];
+        const BYSTANDERS: [u16; 4] = [0, O_ANSI | O_FSUGG, O_SQ | O_ENG, O_NUMPAD | O_PSUGG | O_FSUGG];
         let mut cache: Vec<Option<Sess>> = (0..64).map(|_| None).collect();
         for _ in 0..nrand {
             let bits = rng.below(16);
